@@ -595,9 +595,24 @@ func rewriteAst(rng *rand.Rand, cfg gen.Config) *gen.Node {
 	capFirst := rng.Intn(3) == 0
 	for k := 2 + rng.Intn(3); k > 0; k-- {
 		var x *gen.Node
-		switch rng.Intn(11) {
+		switch rng.Intn(12) {
 		case 0, 1, 2, 3:
 			x = loop()
+		case 11:
+			// a word next to a loop over the word's first or last character, in either order (what the
+			// concatenation reducer folds into the loop: the adjacent end of the word depends on the direction)
+			w := []rune([]string{"ab", "abc", "aαa", "aba", "αa", "ba", "aab", "baa", "abca", "a\U0001F601"}[rng.Intn(10)])
+			ch := w[0]
+			if rng.Intn(2) == 0 {
+				ch = w[len(w)-1]
+			}
+			lo := rng.Intn(3)
+			l := &gen.Node{Kind: gen.KQuant, Lo: lo, Hi: []int{-1, -1, lo + 2}[rng.Intn(3)], Lazy: rng.Intn(4) == 0, Subs: []*gen.Node{{Kind: gen.KLit, Ch: ch}}}
+			if rng.Intn(2) == 0 {
+				x = &gen.Node{Kind: gen.KSeq, Subs: []*gen.Node{lit(string(w)), l}}
+			} else {
+				x = &gen.Node{Kind: gen.KSeq, Subs: []*gen.Node{l, lit(string(w))}}
+			}
 		case 4:
 			x = single()
 		case 5, 9:
